@@ -768,6 +768,7 @@ func TestRun(t *testing.T) {
 	closeWithFullQueue(rec)
 	silentHandshake(rec, vr.Scale(18, 72))
 	brokenAtSetup(rec, vr.Scale(12, 120))
+	serverPeerWithContextValue(rec, vr.Scale(12, 120))
 	rec.SetExhaustive(true)
 	rec.Assume("liveness is bounded progress: after the action the call must return within 6 s (typical latency: microseconds); a firing watchdog is a violation only if a goroutine is parked in the library's wait points, otherwise inconclusive")
 	rec.Assume("'queued behind the limiter / NSTART' has no observable event; the harness gives the call 2 ms to queue up before acting")
